@@ -546,3 +546,13 @@ func init() {
 	addMutant(Mutant{Name: "c06-decimal-fromfloat", Property: "C06", File: "ytypes/decimal_type.go",
 		Old: "isInRanges(schemaType.Range, decimalNumber(floatVal))", New: "isInRanges(schemaType.Range, yang.FromFloat(floatVal))", Expect: "ValidateDecimalRestrictions:FromFloat"})
 }
+
+func init() {
+	// R-CHOICE-TAG-LOOKUP (C02, C10)
+	addMutant(Mutant{Name: "c02-choice-only-single-element", Property: "C02", File: "util/reflect.go",
+		Old: "\t\t\tns, ok = choiceCaseChild(childSchema, p)\n", New: "\t\t\tns, ok = nil, false\n", Expect: "util.childSchema:descent-loop"})
+	addMutant(Mutant{Name: "c02-choice-below-root-only", Property: "C02", File: "util/reflect.go",
+		Old: "\t\t\tns, ok = choiceCaseChild(childSchema, p)\n", New: "\t\t\tns, ok = choiceCaseChild(schema, p)\n", Expect: "util.childSchema:descent-loop"})
+	addMutant(Mutant{Name: "c10-relpath-counts-choice", Property: "C10", File: "ytypes/util_schema.go",
+		Old: "\t\t\tif util.IsChoiceOrCase(s) {", New: "\t\t\tif false {", Expect: "ytypes.hasRelativePath:skips-choice-case"})
+}
